@@ -29,7 +29,8 @@ pub fn judge(h: &History, recs: &[StepRec]) -> Result<(), Failure> {
             let faulted = rx.fault_at.is_some();
             // a payload that cannot share a 255-byte frame with up to 15 bytes of owed MAC answers may be
             // refused with the proper error (an application payload of at most 227 bytes always fits)
-            let refused_too_long = r.payload_sent.len() > 227 && matches!(&r.outcome, Outcome::Err(e) if e.contains("PayloadTooLong"));
+            let room = h.cfg.front.buf_size().min(255) - 13 - 15;
+            let refused_too_long = r.payload_sent.len() > room && matches!(&r.outcome, Outcome::Err(e) if e.contains("PayloadTooLong"));
             if joined && r.txs.is_empty() && !faulted && !refused_too_long && !matches!(&r.outcome, Outcome::Resp(s) if s == "SessionExpired") {
                 return Err(Failure::new("can-still-transmit", h.json(), format!("joined device did not hand a frame to the radio: {}\n{}", r.outcome.text(), render(recs, 5))));
             }
